@@ -178,6 +178,7 @@ def run(ctx):
             if address // 10000 == (address + count - 1) // 10000 or True:
                 judge_shatter(ctx, shatter, address, count, None)
                 ctx.case(('shatter', address, count, None))
+    poller_part(ctx, 6 if quick else 100)
     # seeded large sets, every bank, default and explicit limits
     rng = ctx.rng
     rounds = 300 if quick else 20000
@@ -208,7 +209,6 @@ def run(ctx):
         if ctx.want_sample() and i % 50 == 7 and len(ranges) <= 5:
             ctx.sample({'merge': [list(r) for r in ranges], 'reach': reach, 'limit': limit,
                         'output': [list(r) for r in merge(list(ranges), reach=reach, limit=limit)]})
-    poller_part(ctx, 6 if quick else 400)
 
 
 def value_of(address):
